@@ -10,7 +10,7 @@ from ..floatutil import bits, canon, frombits, hexb, nextn
 FRONT_ENDS = ["problem"]
 EXPLANATION = ("Theorems over wrapper stacks of any depth/order and all call sequences (Proofs/ProblemFacts.v), tied to problem.py by the monadic translation "
                "of the five evaluate methods (GenEquivProblem) and by running random stacks x call sequences on the real classes against run_calls under vm_compute")
-ASSUMPTIONS = ["NaN objective values are outside the property (worse_than then draws a coin)",
+ASSUMPTIONS = ["worse_than on two NaN values is outside the property (it draws a coin); NaN objective VALUES are generated: they pass through unchanged, are counted, and are never a precision hit",
                "time.perf_counter is modelled as a constant: only the number of recorded durations is compared"]
 KINDS = ["wrapper", "counting", "cutoff", "precision", "stats"]
 COQK = {"wrapper": "KWrapper", "counting": "KCounting", "cutoff": "KCutoff", "precision": "KPrecision", "stats": "KStats"}
@@ -45,7 +45,7 @@ def gen_case(rng, maxdepth):
         elif c < 0.5:
             vals.append(opt)
         elif c < 0.6:
-            vals.append(rng.choice([math.inf, -math.inf, 1e308, -1e308, 5e-324, -0.0]))
+            vals.append(rng.choice([math.inf, -math.inf, 1e308, -1e308, 5e-324, -0.0, math.nan, math.nan]))
         else:
             vals.append(rng.uniform(-3, 3))
     return {"maximize": mx, "stack": stack, "values": vals}
